@@ -592,6 +592,13 @@ pub fn convert<W: std::io::Write + Send + 'static>(
     // If sending to a channel fails with "full" we artificially wait 10ms to avoid that from that time one the process is constantly woken up.
     // The 10ms time is a bit arbitrary and we might need to find an algorithm to calculate the optimal time (e.g. 1/4 of the time it took to fill the buffer).
 
+    // verification hook: allows to shrink the channel capacities
+    #[cfg(feature = "verif_hooks")]
+    fn sync_channel<T>(
+        bound: usize,
+    ) -> (std::sync::mpsc::SyncSender<T>, std::sync::mpsc::Receiver<T>) {
+        std::sync::mpsc::sync_channel(adlt::verif::chan_cap(bound))
+    }
     // setup (thread) filter chain:
     let (tx_for_parse_thread, rx_from_parse_thread) = sync_channel(1024 * 1024); // msg -> parse_lifecycles (t2)
     let (tx_for_lc_thread, rx_from_lc_thread) = sync_channel(512 * 1024); // parse_lifecycles -> buffer_sort_messages (t3)
@@ -845,6 +852,8 @@ pub fn convert<W: std::io::Write + Send + 'static>(
     loop {
         match dlt_msg_iterator.next() {
             Some(msg) => {
+                #[cfg(feature = "verif_hooks")]
+                adlt::verif::pause(adlt::verif::Point::ParserMsg);
                 messages_processed += 1;
                 match sync_sender_send_delay_if_full(msg, &tx_for_parse_thread) {
                     Ok(()) => {}
